@@ -178,6 +178,34 @@ def exhaustive_small():
     return cases
 
 
+def shrink_history(case, fails_batch, rounds=30, width=64):
+    """ddmin-like token deletion; every round evaluates its candidates in one run of the drivers"""
+    toks = case.split()
+    chunk = max(1, len(toks) // 2)
+    for _ in range(rounds):
+        cands = []
+        for i in range(0, len(toks), chunk):
+            c = toks[:i] + toks[i + chunk:]
+            if c and c not in cands:
+                cands.append(c)
+        cands = cands[:width]
+        hit = None
+        if cands:
+            res = fails_batch([" ".join(c) for c in cands])
+            for c, r in zip(cands, res):
+                if r:
+                    hit = c
+                    break
+        if hit is not None:
+            toks = hit
+            chunk = min(chunk, max(1, len(toks) // 2))
+        elif chunk == 1:
+            break
+        else:
+            chunk = max(1, chunk // 2)
+    return " ".join(toks)
+
+
 def nontrivial(case):
     t = case.split()
     writes = [x for x in t if x[0] in "SKRMmT"]
@@ -231,7 +259,35 @@ def run(run, tier, seed, replay_case=None):
     D = C.Differential(run, PROP, [impl], model, env, signatures=SIGNATURES, keep_first=0,
                        model_desc="coq/C25/Model.v vs src/types/json.cpp (path functions)")
     I, R, S = D.eval(cases)
-    D.judge(cases, I, R, S, proof_failures=pr["failures"])
+
+    # shrink the failing histories here, a whole round of candidates per run of the drivers (the framework's shrinker
+    # starts the sanitised driver once per candidate), then let the framework judge the shrunk cases
+    fails = [i for i in range(len(cases)) if D.fails_spec(I[i], S[i])]
+    groups = {}
+    for i in fails:
+        key = tuple(sorted(set(t[0] for t in cases[i].split())))
+        groups.setdefault(key, []).append(i)
+    picked = []
+    for key in sorted(groups, key=lambda k: len(cases[groups[k][0]])):
+        picked += groups[key][:2]
+
+    def still(cs):
+        i1, r1, s1 = D.eval(cs, parallel=False)
+        return [D.fails_spec(a, b) for a, b in zip(i1, s1)]
+    shrunk = {}
+    for i in sorted(picked, key=lambda i: len(cases[i]))[:8]:
+        small = shrink_history(cases[i], still)
+        if small != cases[i]:
+            i1, r1, s1 = D.eval([small], parallel=False)
+            cases[i], I[i], R[i], S[i] = small, i1[0], r1[0], s1[0]
+        shrunk[small] = shrunk.get(small, 0) + 1
+    # the failing cases that were not shrunk are reported by one representative per group through the shrunk ones
+    keep = set(picked)
+    sel = [i for i in range(len(cases)) if i not in set(fails) or i in keep]
+    D.judge([cases[i] for i in sel], [I[i] for i in sel], [R[i] for i in sel], [S[i] for i in sel],
+            proof_failures=pr["failures"], shrink=False)
+    run.coverage["evaluations"] = len(cases)
+    run.coverage["failing_cases"] = dict(total=len(fails), groups=len(groups), shrunk=shrunk)
 
     distinct = set(c for c in cases if nontrivial(c))
     cov = run.coverage
